@@ -3,7 +3,8 @@
 Decided (structural, for all inputs):
  R1 K4  no unaudited may-panic site reachable from Client::open / open_in_place /
         header parsers / state `open` implementations.
- R2 K1  on the Err outcome of do_open the output buffer is zeroized (both interfaces).
+ R2 K1  on the Err outcome of do_open the output buffer is zeroized (both interfaces), and nothing shortens it
+        before the zeroize (Buf::zeroize wipes only up to the current length).
  R3 K6  the sequence number returned comes from the parsed DataHeader; lengths derive from
         checked_sub / split_*_checked (no unchecked arithmetic: covered by R1 overflow class).
  R4 K6  seal cuts `dst` to plaintext.len() + OVERHEAD before splitting the header slot off its end
@@ -71,15 +72,23 @@ def run(F, rep, tier):
         al = f.forward_aliases(dos[0].dest.local, through_calls=PASS_THROUGH)
         ok = False
         site = None
+        shrunk = []
         for c in f.calls_to("result::Result::inspect_err"):
             if c.args and c.args[0].place is not None and c.args[0].place.local in al:
                 for cl in f.closures_in_args(c, F):
-                    if any(cc.name == "zeroize" for cc in cl.calls):
+                    zs = [cc for cc in cl.calls if cc.name == "zeroize"]
+                    # Buf::zeroize wipes self[..len]: nothing may shorten the buffer before it
+                    shr = [cc for cc in cl.calls if cc.name in ("truncate", "clear", "set_len", "resize", "split_off", "drain", "pop", "shrink_to", "take")
+                           and not any(cl.dominates(z.bb, cc.bb) and z.bb != cc.bb for z in zs)]
+                    if zs and not shr:
                         ok = True
                         site = c.site()
+                    elif zs:
+                        shrunk.append("%s before zeroize" % shr[0].name)
         rep.check(ok, "Client::%s|zeroize-on-err" % name, "K1 err-edge action",
                   "the Err outcome of do_open passes through inspect_err(|_| <buf>.zeroize())",
-                  "Client::%s: no zeroize of the output buffer on the Err outcome of do_open" % name, site or f.site())
+                  "Client::%s: no zeroize of the whole output buffer on the Err outcome of do_open%s" % (name, (" (%s: Buf::zeroize only wipes up to the current length, so what the AEAD "
+                  "left beyond it stays in the caller's storage)" % shrunk[0]) if shrunk else ""), site or f.site())
         # the `?` after it: every Ok return is on the Continue edge of that result
         oe = f.outcome_edges(dos[0])
         rep.check("Continue" in oe and "Break" in oe, "Client::%s|do_open-result-tested" % name, "K2 guarded-by",
